@@ -4,7 +4,11 @@
    ops: c+ c- (Collect, Catch returns a peer / an error at once)   cb (Collect, Catch parked at a gate)
         g+ g- (let the parked Catch return a peer / an error)      cw (report on the collector)
         p (Pop)  pw (report on the oldest unreported Pop)          e (End)  ew (same for End)
-        n (Count)                                                  x<k> (peer k closes)
+        n (Count)                                                  x<k> (peer k closes: a whole Close call)
+        xb<k> (a Close of peer k begins and is parked inside its teardown)   xe<k> (that Close call returns)
+        s<k> (peer k has been quiet for longer than SnowflakeTimeout)       r<k> (peer k receives a message)
+   The script runs on the composed machine of Model/PeerLife.v (the code's order FlagFirst), whose Peers component is
+   the machine of Model/Peers.v: x<k> = LL_CloseBegin k; LL_CloseEnd k.
    Result: one token per op, then closed flags of all peers, melt flag, blocked threads.
            !racy      the outcome depends on the Go scheduler (not compared)
            !fuel      a run to quiescence ran out of fuel: the adapter never takes a state in which some thread
@@ -12,12 +16,12 @@
            !disabled  the adapter asked for a step of the machine that was not enabled
    The watchdog value is used by the Go driver only. *)
 From Coq Require Import List NArith Bool Arith String.
-From Snow Require Import Lib.Wire Model.Peers.
+From Snow Require Import Lib.Wire Model.Peers Model.PeerLife.
 Import ListNotations.
 Open Scope N_scope.
 
 Record ist := mkI {
-  st : state;
+  lst : lstate;          (* the composed machine; st = its Peers component *)
   plist : list nat;      (* poppers started and not yet reported, oldest first *)
   elist : list nat;      (* enders started and not yet reported, oldest first *)
   colm : bool;           (* the parked Catch was released with a peer after End had begun *)
@@ -27,12 +31,14 @@ Record ist := mkI {
   disabled : bool        (* the adapter asked the machine for a step that is not enabled *)
 }.
 
+Definition st (a : ist) : state := lp (lst a).
+
 Definition fuel_of (s : state) : nat :=
   (100 + 4 * List.length (chan s) + 16 * (List.length (pops s) + List.length (ends s)))%nat.
 
 (* nothing can move: every thread has returned or is blocked (an in-flight Catch stays in flight) *)
-Definition settled (v : version) (s : state) : bool :=
-  match settle_once v s with None => true | Some _ => false end.
+Definition settled (v : version) (s : lstate) : bool :=
+  match lsettle_once v FlagFirst s with None => true | Some _ => false end.
 
 Definition nat_print (n : nat) : bytes := dec_print (N.of_nat n).
 
@@ -45,28 +51,33 @@ Definition cres_print (m : bool) (r : cres) : bytes :=
   | R_Aborted => if m then bs "m" else bs "aborted"
   end.
 
-Definition with_st (a : ist) (s : state) : ist :=
-  mkI s (plist a) (elist a) (colm a) (racy a) (panicked s) (nofuel a) (disabled a).
+Definition with_st (a : ist) (s : lstate) : ist :=
+  mkI s (plist a) (elist a) (colm a) (racy a) (panicked (lp s)) (nofuel a) (disabled a).
 Definition mark_racy (a : ist) : ist :=
-  mkI (st a) (plist a) (elist a) (colm a) true (dead a) (nofuel a) (disabled a).
+  mkI (lst a) (plist a) (elist a) (colm a) true (dead a) (nofuel a) (disabled a).
 Definition set_colm (a : ist) (m : bool) : ist :=
-  mkI (st a) (plist a) (elist a) m (racy a) (dead a) (nofuel a) (disabled a).
+  mkI (lst a) (plist a) (elist a) m (racy a) (dead a) (nofuel a) (disabled a).
 Definition set_plist (a : ist) (l : list nat) : ist :=
-  mkI (st a) l (elist a) (colm a) (racy a) (dead a) (nofuel a) (disabled a).
+  mkI (lst a) l (elist a) (colm a) (racy a) (dead a) (nofuel a) (disabled a).
 Definition set_elist (a : ist) (l : list nat) : ist :=
-  mkI (st a) (plist a) l (colm a) (racy a) (dead a) (nofuel a) (disabled a).
+  mkI (lst a) (plist a) l (colm a) (racy a) (dead a) (nofuel a) (disabled a).
 
 (* run to quiescence; running out of fuel first is recorded, never passed off as quiescence *)
 Definition a_settle (v : version) (a : ist) : ist :=
-  let s' := settle v (fuel_of (st a)) (st a) in
-  mkI s' (plist a) (elist a) (colm a) (racy a) (panicked s') (nofuel a || negb (settled v s')) (disabled a).
+  let s' := lsettle v FlagFirst (fuel_of (st a)) (lst a) in
+  mkI s' (plist a) (elist a) (colm a) (racy a) (panicked (lp s')) (nofuel a || negb (settled v s')) (disabled a).
 
 (* one step the script calls for; a step that is not enabled is recorded, never skipped silently *)
-Definition a_step (v : version) (a : ist) (l : label) : ist :=
-  match step v (st a) l with
+Definition a_lstep (v : version) (a : ist) (l : llabel) : ist :=
+  match lstep v FlagFirst (lst a) l with
   | Some s' => with_st a s'
-  | None => mkI (st a) (plist a) (elist a) (colm a) (racy a) (dead a) (nofuel a) true
+  | None => mkI (lst a) (plist a) (elist a) (colm a) (racy a) (dead a) (nofuel a) true
   end.
+Definition a_step (v : version) (a : ist) (l : label) : ist := a_lstep v a (LL_P l).
+
+Definition exists_peer (s : state) (k : nat) : bool := (k <? next_peer s)%nat.
+(* a Close call of peer k is inside its teardown *)
+Definition closing (a : ist) (k : nat) : bool := begun (lst a) k && negb (torn (lst a) k).
 
 (* report on the collector; a returned call is forgotten *)
 Definition col_report (v : version) (a : ist) : ist * bytes :=
@@ -104,7 +115,7 @@ Definition op_exec (v : version) (a : ist) (op : bytes) : option (ist * bytes) :
   if dead a then Some (a, bs "dead") else
   if beq op (bs "c+") || beq op (bs "c-") || beq op (bs "cb") then
     if negb (is_idle s) then Some (a, bs "skip") else
-    match step v s Col_lock with
+    match lstep v FlagFirst (lst a) (LL_P Col_lock) with
     | None => Some (mark_racy a, bs "skip")       (* the lock is held by an End: who gets it next is the scheduler's choice *)
     | Some s1 =>
         let a2 := a_settle v (with_st a s1) in
@@ -158,13 +169,39 @@ Definition op_exec (v : version) (a : ist) (op : bytes) : option (ist * bytes) :
   else if beq op (bs "n") then
     Some (a, bs "n=" ++ nat_print (List.length (filter (live s) (active s))))
   else match op with
-  | 120 :: k =>
+  | 120 :: 98 :: k =>                                (* xb<k>: Close begins, parked inside the teardown *)
       match dec_parse_nat k with
       | Some k =>
-          match step v s (Peer_closes k) with
-          | Some s1 => Some (a_settle v (with_st a s1), bs "x")
-          | None => Some (a, bs "-")                 (* no such peer: the driver answers "-" as well *)
-          end
+          if negb (exists_peer s k) then Some (a, bs "-")
+          else if begun (lst a) k then Some (a, bs "skip")      (* sync.Once: no second teardown *)
+          else Some (a_settle v (a_lstep v a (LL_CloseBegin k)), bs "xb")
+      | None => None
+      end
+  | 120 :: 101 :: k =>                               (* xe<k>: that Close call returns *)
+      match dec_parse_nat k with
+      | Some k =>
+          if negb (exists_peer s k) then Some (a, bs "-")
+          else if closing a k then Some (a_settle v (a_lstep v a (LL_CloseEnd k)), bs "xe")
+          else Some (a, bs "skip")
+      | None => None
+      end
+  | 120 :: k =>                                      (* x<k>: a whole Close call *)
+      match dec_parse_nat k with
+      | Some k =>
+          if negb (exists_peer s k) then Some (a, bs "-")     (* no such peer: the driver answers "-" as well *)
+          else if closing a k then Some (a, bs "skip")        (* once.Do would wait for the teardown in progress *)
+          else if begun (lst a) k then Some (a, bs "x")       (* closed before: nothing happens *)
+          else Some (a_settle v (a_lstep v (a_lstep v a (LL_CloseBegin k)) (LL_CloseEnd k)), bs "x")
+      | None => None
+      end
+  | 115 :: k =>                                      (* s<k>: quiet for longer than SnowflakeTimeout *)
+      match dec_parse_nat k with
+      | Some k => if exists_peer s k then Some (a_lstep v a (LL_Quiet k), bs "s") else Some (a, bs "-")
+      | None => None
+      end
+  | 114 :: k =>                                      (* r<k>: a message arrives *)
+      match dec_parse_nat k with
+      | Some k => if exists_peer s k then Some (a_lstep v a (LL_Recv k), bs "r") else Some (a, bs "-")
       | None => None
       end
   | _ => None
@@ -201,11 +238,11 @@ Definition summary (a : ist) : bytes :=
   nat_print (count_true (map (end_pending s) (elist a))).
 
 Definition run_script (v : version) (max : nat) (ops : list bytes) : bytes :=
-  match ops_exec v (mkI (init max) [] [] false false false false false) ops with
+  match ops_exec v (mkI (linit max) [] [] false false false false false) ops with
   | Some (a, rs) =>
       if nofuel a then bs "!fuel"
       else if disabled a then bs "!disabled"
-      else if negb (dead a) && negb (settled v (st a)) then bs "!fuel"
+      else if negb (dead a) && negb (settled v (lst a)) then bs "!fuel"
       else if racy a then bs "!racy" else list_print rs ++ summary a
   | None => ERR_BADCASE
   end.
